@@ -1,5 +1,6 @@
 (* C11 - End of stack is told apart from truncation; null is never a frame. *)
-From FH Require Import Consts Word X86 A64 Unwinder X86Unw A64Unw X86Exec A64Exec A64Walk IterFacts TruncFacts.
+From FH Require Import Consts Word X86 A64 Unwinder X86Unw A64Unw X86Exec A64Exec A64Walk IterFacts HistFacts StaticFacts TruncFacts TruncWalk.
+From Coq Require Import List. Import ListNotations.
 Open Scope N_scope.
 
 (* (a) the iterator never yields a null frame (generic in the architecture) *)
@@ -42,7 +43,7 @@ Theorem C11_truncation_x86 : forall m cut ru first rg,
 Proof.
   intros m cut ru first rg Hsp.
   exact (exec_x_trunc (mem_cut m cut) m ru first rg (mem_cut_le m cut)
-           (fun a Ha => mem_cut_below m cut a (N.lt_le_trans _ _ _ Ha Hsp))).
+           (fun _ a Ha => mem_cut_below m cut a (N.lt_le_trans _ _ _ Ha Hsp))).
 Qed.
 Print Assumptions C11_truncation_x86.
 
@@ -55,3 +56,53 @@ Print Assumptions C11_truncation_a64.
 Theorem C11_error_names_cut : forall m cut a, mem_cut m cut a = None -> m a = None \/ cut <= a.
 Proof. exact mem_cut_unreadable. Qed.
 Print Assumptions C11_error_names_cut.
+
+(* ---------- (c) at the level of unwind_frame and of whole walks (Proofs/TruncWalk.v) ----------
+   "Rule-based step": served from the cache, by a rule that the module's unwind data gives for the
+   address whatever the registers and the stack hold, or by the fallback rule - [all_static u]: every
+   address of every module of u is answered that way (the classification cb_static_* is the one C06 and
+   C20 rest on; it is proved exact for every format in Proofs/StaticFacts.v). m1 is m2 with some reads
+   failing. One call either names an address m1 cannot read or returns on m1 what it returns on m2:
+   result, registers and cache. *)
+Theorem C11_frame_truncation_x86 : forall u m1 m2 c a rg,
+  mem_le m1 m2 -> all_static rule mdata cb_static_x86 u ->
+  (negb (is_ra a) = true -> forall x, x < sp rg -> m1 x = m2 x) ->
+  frame_trunc rule regs m1 (unwind_frame_x u c a rg m1) (unwind_frame_x u c a rg m2).
+Proof. intros u m1 m2 c a rg Hle St Hp. exact (unwind_frame_trunc_x u m1 m2 Hle St c a rg Hp). Qed.
+Print Assumptions C11_frame_truncation_x86.
+
+Theorem C11_frame_truncation_a64 : forall u m1 m2 c a rg,
+  mem_le m1 m2 -> all_static arule amdata cb_static_a64 u ->
+  frame_trunc arule aregs m1 (unwind_frame_a u c a rg m1) (unwind_frame_a u c a rg m2).
+Proof. intros u m1 m2 c a rg Hle St. exact (unwind_frame_trunc_a u m1 m2 Hle St c a rg). Qed.
+Print Assumptions C11_frame_truncation_a64.
+
+(* whole walks, as their user sees them (results up to and including the first that is not a frame):
+   the walk over the stack cut at [cut] equals the walk over the full stack, or equals it up to a call
+   that reports Err(CouldNotReadStack x) with x unreadable - the frames before it are a prefix of the
+   true chain *)
+Theorem C11_walk_truncation_x86 : forall u m cut n pc rg c,
+  all_static rule mdata cb_static_x86 u -> sp rg <= cut ->
+  walk_trunc_ok (mem_cut m cut)
+    (until_stop (fst (iter_run_x u (mem_cut m cut) (iter_new _ _ pc rg c) n)))
+    (until_stop (fst (iter_run_x u m (iter_new _ _ pc rg c) n))).
+Proof. exact walk_cut_x. Qed.
+Print Assumptions C11_walk_truncation_x86.
+
+Theorem C11_walk_truncation_a64 : forall u m1 m2 n it,
+  mem_le m1 m2 -> all_static arule amdata cb_static_a64 u ->
+  walk_trunc_ok m1 (until_stop (fst (iter_run_a u m1 it n))) (until_stop (fst (iter_run_a u m2 it n))).
+Proof. intros u m1 m2 n it Hle St. exact (walk_trunc_a u m1 m2 Hle St n it). Qed.
+Print Assumptions C11_walk_truncation_a64.
+
+(* the premise is met: an unwinder whose only module has no unwind data answers every address statically *)
+Example C11_all_static_example :
+  all_static rule mdata cb_static_x86 (mkunw mdata [mkmod 0x1000 0x2000 0x1000 0 MNone] 0).
+Proof.
+  intros x first md rel H. unfold find_module in H. cbn [mods find_cand] in H.
+  destruct (mstart _ =? x); [|destruct (x <? mstart _); [|unfold check_end in H; destruct (mend _ <=? x)]];
+    try discriminate;
+    (destruct (x <? base_avma _); [discriminate|]; unfold res_bind, sub64p in H;
+     destruct (base_avma _ <=? x); [|discriminate]; destruct (_ <? W32); [|discriminate];
+     inversion H; subst; cbn; discriminate).
+Qed.
